@@ -2,6 +2,14 @@
 
 package xconv
 
+// AsMethods sorts before Convergen: its ToB is generated as a METHOD of A, which cannot serve as
+// a converter; the plain function ToB generated from Helpers can, and is the one :conv names.
+// :convergen
+type AsMethods interface {
+	// :recv a
+	ToB(A) B
+}
+
 type Convergen interface {
 	// Outer converts its nested struct with a function generated from ANOTHER interface of
 	// this file (which sorts after this one) and with one generated from this interface.
